@@ -20,7 +20,10 @@ Record obs := mkObs {
   o_owns : list (list bool);           (* [broker][resource] *)
   o_keys : list (option (Z * Z));      (* per resource: (owner index or -2, session holder index or -1) *)
   o_rev : Z;
-  o_sess : list bool
+  o_sess : list bool;
+  o_skip : bool                        (* observation taken inside the window in which the holder
+                                          has not yet had a chance to observe its session loss:
+                                          not compared (the next one is) *)
 }.
 
 Record case := mkCase {
@@ -62,7 +65,8 @@ Definition obs_of (cfg : config) (k : case) (s : state) (r : option ares) : obs 
                       last_index_of (fun b => session_is (get_mgr s b) (kv_lease x)) (k_brokers k) 0 (-1))
             end) (k_res k))
     (e_rev (s_etcd s) - 1)
-    (map (fun b => match m_session (get_mgr s b) with Some _ => true | None => false end) (k_brokers k)).
+    (map (fun b => match m_session (get_mgr s b) with Some _ => true | None => false end) (k_brokers k))
+    false.
 
 Definition zpair_eqb (a b : Z * Z) : bool := (fst a =? fst b) && (snd a =? snd b).
 
@@ -78,7 +82,7 @@ Fixpoint check_from (cfg : config) (k : case) (s : state) (evs : list event) (os
   | [], [] => true
   | ev :: evs', o :: os' =>
       let '(s', r) := step cfg s ev in
-      obs_eqb (obs_of cfg k s' r) o && check_from cfg k s' evs' os'
+      (o_skip o || obs_eqb (obs_of cfg k s' r) o) && check_from cfg k s' evs' os'
   | _, _ => false
   end.
 
@@ -97,7 +101,8 @@ Record pcase := mkPCase {
   pk_entered : list (list bool);  (* storage path entered, per partition entry *)
   pk_owns : list bool;            (* handler's manager, per pool resource, after the request *)
   pk_owns_other : list bool;
-  pk_keys : list Z                (* per pool resource: -1 absent, 0 / 1 = broker "1" / "2", -2 other *)
+  pk_keys : list Z;               (* per pool resource: -1 absent, 0 / 1 = broker "1" / "2", -2 other *)
+  pk_holders : list Z             (* per pool resource: whose current session holds the key's lease: 0 / 1, -1 nobody's *)
 }.
 
 Definition broker1 : bytes := [49].
@@ -117,4 +122,11 @@ Definition check_pcase (k : pcase) : bool :=
                    | None => -1
                    | Some v => if bytes_eqb v broker1 then 0 else if bytes_eqb v broker2 then 1 else -2
                    end) (pk_pool k))
-    (pk_keys k).
+    (pk_keys k) &&
+  list_eqb Z.eqb
+    (map (fun r => match get (s_etcd s') (lease_key cfg r) with
+                   | None => -1
+                   | Some x => if session_is (get_mgr s' broker1) (kv_lease x) then 0
+                               else if session_is (get_mgr s' broker2) (kv_lease x) then 1 else -1
+                   end) (pk_pool k))
+    (pk_holders k).
